@@ -293,5 +293,5 @@ ASSUMPTIONS = ["the model's strftime covers a fixed token vocabulary (chrono sem
 
 def main(tier):
     n = 2400 if tier == "quick" else 100000
-    cap = 300 if tier == "quick" else 7200
+    cap = 300 if tier == "quick" else 1500
     return engine.run_check(PROP, "c13", tier, n, cap, "exploration", RULE, ASSUMPTIONS)
